@@ -264,20 +264,36 @@ def harness_bin(release=False):
 
 # ---------------------------------------------------------------- runners
 
-def run_model(case_lines, tag):
-    """Evaluate the cases with the extracted model. Returns {id: obs}."""
+def _run_model_one(case_lines, tag, tmo):
     path = os.path.join(WORK, "cases", tag + ".model.cases")
     os.makedirs(os.path.dirname(path), exist_ok=True)
     with open(path, "w") as f:
         f.write("\n".join(case_lines) + "\n")
     try:
-        rc, out, _ = sh("ulimit -s unlimited 2>/dev/null; exec timeout 900 %s %s" % (ZVM, path), timeout=1000)
+        rc, out, _ = sh("ulimit -s unlimited 2>/dev/null; exec timeout %d %s %s" % (tmo, ZVM, path), timeout=tmo + 100)
     except subprocess.TimeoutExpired:
         out = ""
     res = {}
     for line in out.splitlines():
         sp = line.split(" ", 1)
         res[sp[0]] = sp[1] if len(sp) > 1 else ""
+    return res
+
+
+def run_model(case_lines, tag):
+    """Evaluate the cases with the extracted model. Returns {id: obs}.  Large batches are sharded over
+    parallel processes (the driver is a pure function of each line)."""
+    n = len(case_lines)
+    if n <= 20000:
+        return _run_model_one(case_lines, tag, 900)
+    import concurrent.futures
+    shards = 16
+    parts = [case_lines[i::shards] for i in range(shards)]
+    res = {}
+    with concurrent.futures.ThreadPoolExecutor(max_workers=shards) as ex:
+        futs = [ex.submit(_run_model_one, p, "%s.m%d" % (tag, i), 3000) for i, p in enumerate(parts) if p]
+        for f in futs:
+            res.update(f.result())
     return res
 
 
